@@ -10,7 +10,7 @@ go build -tags verif -overlay .gen/overlay-appcheck/overlay.json -o .bin/appchec
 go build -tags verif -o .bin/kprcheck ./cmd/kprcheck
 go build -tags verif -o .bin/netcheck ./cmd/netcheck
 go build -tags verif -o .bin/evcheck ./cmd/evcheck
-.bin/rewrite -maporder keyper/kproapi -vos "" -out .gen/overlay-apicheck
+.bin/rewrite -maporder keyper/kproapi -vos "" -yield keyper/kproapi,keyper/kprapi -out .gen/overlay-apicheck
 go build -tags verif -overlay .gen/overlay-apicheck/overlay.json -o .bin/apicheck ./cmd/apicheck
 go build -tags verif -o .bin/trigcheck ./cmd/trigcheck
 go build -tags verif -o .bin/svccheck ./cmd/svccheck
